@@ -164,6 +164,25 @@ type SimStore struct {
 	Gauge bool
 }
 
+// breakingReader delivers left bytes and fails then.
+type breakingReader struct {
+	io.ReadCloser
+	left int64
+	err  error
+}
+
+func (b *breakingReader) Read(p []byte) (int, error) {
+	if b.left <= 0 {
+		return 0, b.err
+	}
+	if int64(len(p)) > b.left {
+		p = p[:b.left]
+	}
+	n, err := b.ReadCloser.Read(p)
+	b.left -= int64(n)
+	return n, err
+}
+
 type trackedReader struct {
 	io.ReadCloser
 	s      *SimStore
@@ -202,9 +221,13 @@ func (s *SimStore) Fetch(ctx context.Context, d ocispec.Descriptor) (io.ReadClos
 		return nil, fmt.Errorf("%s fetch node %d: %w", s.Name, n, errInjected)
 	}
 	rc, err := s.Inner.(content.Fetcher).Fetch(ctx, d)
-	if err == nil && k == "after" {
+	if err == nil && (k == "after" || (k == "midread" && d.Size == 0)) {
 		rc.Close()
 		err = fmt.Errorf("%s fetch node %d (after effect): %w", s.Name, n, errInjected)
+	}
+	if err == nil && k == "midread" {
+		// the call succeeds, the body breaks off half way with an error that is not EOF
+		rc = &breakingReader{ReadCloser: rc, left: d.Size / 2, err: fmt.Errorf("%s read body of node %d: %w", s.Name, n, errInjected)}
 	}
 	s.M.leave(s.Name, "Fetch", n, err)
 	if err != nil {
